@@ -158,6 +158,7 @@ def oracle_registry(tr, status, scripts):
                     break
     ops.sort(key=lambda o: lock_pts.get(id(o), o['begin']))
     registered = None
+    fresh_due = False
     for o in ops:
         if o['end'] is None:
             continue
@@ -174,7 +175,8 @@ def oracle_registry(tr, status, scripts):
                 registered = res if res.startswith('inst') else registered
             else:
                 if not live:
-                    registered = 'inst?'       # setup spawned something we did not see; resolved by the next lookup
+                    registered = 'inst?'       # setup must have spawned a fresh instance; identified by the next lookup
+                    fresh_due = True
         elif k == 'register':
             arg = scripts[o['client']][o['pc']]
             if live:
@@ -201,6 +203,15 @@ def oracle_registry(tr, status, scripts):
                 v.append(f"unregister returned {res}, expected the previous entry {exp}")
             registered = None
         elif k == 'try_from_registry':
+            if registered == 'inst?':
+                if not res.startswith('Some'):
+                    v.append(f"try_from_registry returned {res} after setup() had to register a fresh instance")
+                else:
+                    inst = res[5:-1]
+                    if not alive(inst, o['begin']):
+                        v.append(f"try_from_registry returned the terminated instance {inst} after setup()")
+                    registered = inst
+                continue
             if res.startswith('Some'):
                 inst = res[5:-1]
                 if inst != registered:
@@ -208,6 +219,8 @@ def oracle_registry(tr, status, scripts):
                 elif not alive(inst, o['begin']):
                     v.append(f"try_from_registry returned the terminated instance {inst}")
         elif k == 'already_running':
+            if registered == 'inst?' and res != 'Some(True)':
+                v.append(f"already_running returned {res} after setup() had to register a fresh instance")
             exp = 'None' if registered is None else f"Some({live})"
             if res != exp and registered != 'inst?':
                 v.append(f"already_running returned {res}, expected {exp} (registered: {registered}, alive: {live})")
